@@ -43,6 +43,7 @@ import (
 	"go/constant"
 	"go/token"
 	"go/types"
+	"regexp"
 	"rscheck/rules/reent"
 	"strings"
 
@@ -265,8 +266,18 @@ func isBoolType(t types.Type) bool {
 // what its definitions say (all definitions that are reachable under the same
 // assumptions must agree); a call of a module predicate helper is what its
 // reachable return statements say.
+// unknownAtomHook, when set, is told every atom that could not be evaluated
+// (the rule decides whether it matters).
+var unknownAtomHook func(at flow.Site, x ast.Expr)
+
 func truthAt(e *flow.Engine, at flow.Site, cond ast.Expr, atom func(flow.Site, ast.Expr) (bool, bool), depth int) (bool, bool) {
 	return ring.EvalUnder(cond, func(x ast.Expr) (bool, bool) {
+		return truthAtom(e, at, x, atom, depth)
+	})
+}
+
+func truthAtom(e *flow.Engine, at flow.Site, x ast.Expr, atom func(flow.Site, ast.Expr) (bool, bool), depth int) (bool, bool) {
+	return func(x ast.Expr) (bool, bool) {
 		if v, k := atom(at, x); k {
 			return v, true
 		}
@@ -275,6 +286,14 @@ func truthAt(e *flow.Engine, at flow.Site, cond ast.Expr, atom func(flow.Site, a
 			return constant.BoolVal(tv.Value), true
 		}
 		if depth > 3 {
+			return false, false
+		}
+		// giving up on a leaf (nothing behind it was looked at) is reported; a value
+		// whose definitions were looked at and stayed open is as open as they are
+		giveUp := func() (bool, bool) {
+			if unknownAtomHook != nil {
+				unknownAtomHook(at, x)
+			}
 			return false, false
 		}
 		agree := func(vals []bool, n int) (bool, bool) {
@@ -295,13 +314,13 @@ func truthAt(e *flow.Engine, at flow.Site, cond ast.Expr, atom func(flow.Site, a
 			}
 			st := e.Step(at, y)
 			if !st.Local || st.Unsafe {
-				return false, false
+				return giveUp()
 			}
 			if st.Entry {
 				if st.Bound && len(st.Defs) == 0 {
 					return truthAt(e, st.ArgSite, st.Arg, atom, depth+1)
 				}
-				return false, false
+				return giveUp()
 			}
 			cut := infeasibleD(e, at.G, at.Up, atom, depth+1)
 			var vals []bool
@@ -328,7 +347,7 @@ func truthAt(e *flow.Engine, at flow.Site, cond ast.Expr, atom func(flow.Site, a
 		case *ast.CallExpr:
 			rets, ok := e.Follow(at, y, 0)
 			if !ok || len(rets) == 0 {
-				return false, false
+				return giveUp()
 			}
 			hg := rets[0].G
 			cut := infeasibleD(e, hg, rets[0].Up, atom, depth+1)
@@ -349,8 +368,58 @@ func truthAt(e *flow.Engine, at flow.Site, cond ast.Expr, atom func(flow.Site, a
 			}
 			return agree(vals, n)
 		}
+		return giveUp()
+	}(x)
+}
+
+// evalRole evaluates a boolean role (the canonical rendering of package roles:
+// `(a||b)`, `(a&&b)`, `!a`, atoms) under a table of atom values.
+func evalRole(role string, table map[string]bool) (bool, bool) {
+	role = strings.TrimSpace(role)
+	if v, ok := table[role]; ok {
+		return v, true
+	}
+	switch role {
+	case "=true":
+		return true, true
+	case "=false":
+		return false, true
+	}
+	if strings.HasPrefix(role, "!") {
+		v, k := evalRole(role[1:], table)
+		return !v, k
+	}
+	if strings.Contains(role, "|") && !strings.HasPrefix(role, "(") {
+		return false, false // several origins
+	}
+	if !strings.HasPrefix(role, "(") || !strings.HasSuffix(role, ")") {
 		return false, false
-	})
+	}
+	inner := role[1 : len(role)-1]
+	depth := 0
+	for i := 0; i+1 < len(inner); i++ {
+		switch inner[i] {
+		case '(', '[', '{':
+			depth++
+		case ')', ']', '}':
+			depth--
+		}
+		if depth == 0 && (inner[i:i+2] == "||" || inner[i:i+2] == "&&") {
+			l, kl := evalRole(inner[:i], table)
+			r, kr := evalRole(inner[i+2:], table)
+			if inner[i:i+2] == "||" {
+				if kl && l || kr && r {
+					return true, true
+				}
+				return false, kl && kr
+			}
+			if kl && !l || kr && !r {
+				return false, true
+			}
+			return true, kl && kr
+		}
+	}
+	return false, false
 }
 
 // encodeObjectRules: when the database selector and the expiry are written.
@@ -367,20 +436,18 @@ func encodeObjectRules(c *core.Ctx, fn *core.Fn) {
 	g := cfgq.Of(c.Program, fn)
 	e := flow.New(c.Program)
 	e.Opaque = func(f *types.Func) bool { return f.Pkg() == nil || !strings.HasSuffix(f.Pkg().Path(), rdbPkg) }
+	// what a value is, in the vocabulary of EncodeObject's parameters (package roles:
+	// through locals, helper parameters and results, result structs, conversions)
+	rr := newRoler(c, fn, e.Opaque)
+	rr.nameParams("e", "db", "key", "expireat", "obj")
+	pname := map[*ast.Ident]string{ps[0]: "db", ps[1]: "key", ps[2]: "expireat", ps[3]: "obj"}
+	var unknownValues []string
 	isParam := func(s flow.Site, x ast.Expr, p *ast.Ident) bool {
-		r := ast.Unparen(e.Resolve(s, x))
-		for {
-			call, ok := r.(*ast.CallExpr)
-			if ok && len(call.Args) == 1 {
-				if tv, has := s.G.Info.Types[call.Fun]; has && tv.IsType() {
-					r = ast.Unparen(call.Args[0])
-					continue
-				}
-			}
-			break
+		ro := rr.role(s, x)
+		if unknownRole(ro) {
+			unknownValues = append(unknownValues, ro)
 		}
-		id, ok := r.(*ast.Ident)
-		return ok && core.ObjOf(info, id) == info.Defs[p]
+		return ro == pname[p]
 	}
 	callsOf := func(name string) []flow.CallSite {
 		return e.Calls(g, fn.Decl.Body, func(f *types.Func) bool {
@@ -399,6 +466,28 @@ func encodeObjectRules(c *core.Ctx, fn *core.Fn) {
 			return cfgq.ClassifyReturn(gg.Info, gg.Body, ret) != cfgq.RetErr
 		}
 	}
+	// atoms that could not be evaluated although they speak about the database
+	// state, the db or the expiry: a path verdict that depends on them is UNDECIDED
+	var relevantUnknown []string
+	mentionRe := regexp.MustCompile(`\be\.db\b`)
+	unknownAtomHook = func(at flow.Site, x ast.Expr) {
+		// only an OPAQUE boolean (a variable, a field, a call result) computed from the
+		// tracked state counts: a comparison that is simply not one of the assumed
+		// atoms is independent of them, both of its edges are really possible
+		if _, isCmp := ast.Unparen(x).(*ast.BinaryExpr); isCmp {
+			return
+		}
+		ro := rr.role(at, x)
+		if mentionRe.MatchString(ro) {
+			for _, have := range relevantUnknown {
+				if have == ro {
+					return
+				}
+			}
+			relevantUnknown = append(relevantUnknown, ro)
+		}
+	}
+	defer func() { unknownAtomHook = nil }()
 	// ---- SELECTDB
 	dbCalls := callsOf("EncodeDatabase")
 	sameFrame := len(dbCalls) > 0
@@ -425,9 +514,15 @@ func encodeObjectRules(c *core.Ctx, fn *core.Fn) {
 		}
 		// atoms: A = `e.db == -1` (nothing written yet), B = `uint32(e.db) == db` (same database)
 		atomFor := func(a, b bool) func(flow.Site, ast.Expr) (bool, bool) {
+			table := map[string]bool{"(=-1==e.db)": a, "(=-1!=e.db)": !a, "(db==e.db)": b, "(db!=e.db)": !b}
 			return func(at flow.Site, x ast.Expr) (bool, bool) {
 				be, ok := ast.Unparen(x).(*ast.BinaryExpr)
 				if !ok || be.Op != token.EQL && be.Op != token.NEQ {
+					// an opaque boolean (a flag in a struct, a result handed around): what it was
+					// computed from, as a role, evaluated under the same assumptions
+					if !ok {
+						return evalRole(rr.role(at, x), table)
+					}
 					return false, false
 				}
 				eq := be.Op == token.EQL
@@ -544,9 +639,16 @@ func encodeObjectRules(c *core.Ctx, fn *core.Fn) {
 		if !remembered {
 			why = append(why, "the database written is not stored in e.db together with the selector")
 		}
-		c.Check("R2.grammar", "EncodeObject/select-db", fn.Decl.Pos(), okDB && remembered, "a SELECTDB opcode is written whenever the database differs from the last one written (and for the first object), and the new database is remembered; "+strings.Join(why, "; "))
+		relevantUnknown = append(relevantUnknown, unknownValues...)
+		if !(okDB && remembered) && len(relevantUnknown) > 0 {
+			c.Undecidedf("R2.grammar", "EncodeObject/select-db", fn.Decl.Pos(), "a condition over the database state cannot be evaluated: %s", strings.Join(relevantUnknown, "; "))
+		} else {
+			c.Check("R2.grammar", "EncodeObject/select-db", fn.Decl.Pos(), okDB && remembered, "a SELECTDB opcode is written whenever the database differs from the last one written (and for the first object), and the new database is remembered; "+strings.Join(why, "; "))
+		}
 	}
 	// ---- expiry
+	relevantUnknown, unknownValues = nil, nil
+	mentionRe = regexp.MustCompile(`\bexpireat\b`)
 	exCalls := callsOf("EncodeExpiry")
 	if len(exCalls) != 1 {
 		c.Undecidedf("R2.grammar", "EncodeObject/expiry", fn.Decl.Pos(), "expected one EncodeExpiry call reachable from EncodeObject, found %d", len(exCalls))
@@ -572,7 +674,7 @@ func encodeObjectRules(c *core.Ctx, fn *core.Fn) {
 		atom := func(at flow.Site, x ast.Expr) (bool, bool) {
 			be, ok := ast.Unparen(x).(*ast.BinaryExpr)
 			if !ok {
-				return false, false
+				return evalRole(rr.role(at, x), map[string]bool{"(=0==expireat)": false, "(=0!=expireat)": true, "(=0<expireat)": true, "(expireat<==0)": false})
 			}
 			if v, isC := core.IntConst(gg.Info, be.Y); isC && v == 0 && isParam(at, be.X, ps[2]) {
 				switch be.Op {
@@ -595,7 +697,12 @@ func encodeObjectRules(c *core.Ctx, fn *core.Fn) {
 		if w := gg.Path(cfgq.Query{From: gg.Entry(), Avoid: isEx, AvoidEdge: infeasibleAt(e, gg, ec.Up, atom), TargetExit: errorExit(gg)}); w != nil {
 			okE = false
 		}
-		c.Check("R2.grammar", "EncodeObject/expiry", fn.Decl.Pos(), okE, "the expiry opcode carries the object's absolute expiry and is written exactly when it is non-zero")
+		relevantUnknown = append(relevantUnknown, unknownValues...)
+		if !okE && len(relevantUnknown) > 0 {
+			c.Undecidedf("R2.grammar", "EncodeObject/expiry", fn.Decl.Pos(), "a condition over the expiry cannot be evaluated: %s", strings.Join(relevantUnknown, "; "))
+		} else {
+			c.Check("R2.grammar", "EncodeObject/expiry", fn.Decl.Pos(), okE, "the expiry opcode carries the object's absolute expiry and is written exactly when it is non-zero")
+		}
 	}
 	// ---- key
 	okK := false
